@@ -143,10 +143,7 @@ func freeRunV1(t *testing.T, rnd *rand.Rand, run int) (map[string]any, []obs) {
 		<-done
 	}
 	for err := range d.Err() {
-		note := "nil"
-		if err != nil {
-			note = err.Error()
-		}
+		note := errNote(err)
 		lg.add(obs{E: "EV", Note: note})
 	}
 	lg.add(obs{E: "EC"})
@@ -297,10 +294,7 @@ loop:
 			if !ok {
 				break loop
 			}
-			note := "nil"
-			if err != nil {
-				note = err.Error()
-			}
+			note := errNote(err)
 			lg.add(obs{E: "EV", Note: note})
 		case <-timeout:
 			lg.add(obs{E: "Deadline", Note: "real-clock watchdog 20s: Err() not closed"})
